@@ -11,7 +11,7 @@ import (
 )
 
 var c07Floor = []string{"cte.1", "cte.chain2", "cte.chain3", "cte.twice.join", "cte.twice.union", "cte.twice.insub", "cte.selector", "derived", "derived.where",
-	"subq.nested", "subq.root", "subq.in", "subq.agg", "exists", "exists.outer", "inner.agg", "inner.order", "inner.filter"}
+	"subq.nested", "subq.root", "subq.in", "subq.agg", "exists", "exists.outer", "subq.root-correlated", "derived.join", "inner.agg", "inner.order", "inner.filter"}
 
 func init() {
 	fw.Register(&fw.Prop{
@@ -216,9 +216,9 @@ func hasCol(t *gen.Table, name string) bool {
 }
 
 func c07Run(c *fw.Case) {
-	kind := c07Floor[c.Idx%15] // the first 15 entries are pipeline kinds
-	if c.Idx >= 3*15 {
-		kind = c07Floor[c.Intn(15)]
+	kind := c07Floor[c.Idx%17] // the first 17 entries are pipeline kinds
+	if c.Idx >= 3*17 {
+		kind = c07Floor[c.Intn(17)]
 	}
 	doc, t, u := c07Doc(c)
 	feats := []string{kind}
@@ -377,6 +377,39 @@ func c07Run(c *fw.Case) {
 		}
 		compare(composed, fresh(), want, false, map[string]any{"inner": inner, "outer": stagedOuter})
 
+	case "derived.join":
+		// two derived tables joined: must equal the join of the two materialised results
+		in1 := "SELECT rid, n1, s1 FROM t1"
+		if c.Chance(0.5) {
+			in1 += " WHERE n1 >= " + gen.SQLLit(gen.Pick(c.R, append([]any{0.0}, t.Pools["n1"]...)), 0)
+		}
+		in2 := gen.Pick(c.R, []string{"SELECT un1, us1 FROM u1", "SELECT rid, n1 FROM t1", "SELECT un1 FROM u1 WHERE un1 >= 0"})
+		key2 := "un1"
+		if strings.Contains(in2, "FROM t1") {
+			key2 = "n1"
+		}
+		jn := gen.Pick(c.R, []string{"JOIN", "LEFT JOIN", "RIGHT JOIN", "HASH_JOIN"})
+		on := "x.n1 = y." + key2
+		if c.Chance(0.3) {
+			on = "x.n1 >= y." + key2
+		}
+		r1, ok := stage(fresh(), in1)
+		if !ok {
+			return
+		}
+		r2, ok := stage(fresh(), in2)
+		if !ok {
+			return
+		}
+		staged := fresh()
+		staged["dt1"], staged["dt2"] = val.Copy(r1), val.Copy(r2)
+		stagedSQL := "SELECT * FROM dt1 x " + jn + " dt2 y ON " + on
+		want, ok := stage(staged, stagedSQL)
+		if !ok {
+			return
+		}
+		compare("SELECT * FROM ("+in1+") x "+jn+" ("+in2+") y ON "+on, fresh(), want, true, map[string]any{"dt1": in1, "dt2": in2, "outer": stagedSQL})
+
 	case "subq.nested", "subq.root", "subq.agg":
 		var sub, standalone string
 		switch kind {
@@ -450,6 +483,83 @@ func c07Run(c *fw.Case) {
 			}
 		}
 		if nonEmpties > 0 && (empties > 0 || kind != "subq.nested") {
+			c.Nontrivial(composed + "|" + val.Canon(doc))
+		}
+
+	case "subq.root-correlated":
+		// rows come from the enclosing document, the predicate reaches back to
+		// the current row: the contribution differs from row to row
+		op := gen.Pick(c.R, []string{"=", ">=", "<", "!="})
+		agg := c.Chance(0.3)
+		sel := "un1, us1"
+		if agg {
+			sel = "COUNT(*) AS n"
+		}
+		inSub := c.Chance(0.3) && !agg
+		var composed string
+		if inSub {
+			composed = "SELECT rid FROM t1 WHERE n2 IN (SELECT un1 FROM `<-u1` WHERE un1 " + op + " `<-n1`)"
+		} else {
+			composed = "SELECT rid, (SELECT " + sel + " FROM `<-u1` WHERE un1 " + op + " `<-n1`) AS sub FROM t1"
+		}
+		o := Run(fresh(), composed)
+		c.Evals(1)
+		c.Sample(map[string]any{"composed": composed})
+		det := map[string]any{"sql": composed, "doc": doc, "observed": o.Describe()}
+		if !o.OK() {
+			c.Violate("error", fmt.Sprintf("root-sourced row-correlated subquery failed: %v", o.Describe()), det)
+			return
+		}
+		var wantIDs []any
+		distinct := map[string]bool{}
+		for i, row := range t.Rows {
+			standalone := "SELECT " + sel + " FROM u1 WHERE un1 " + op + " " + gen.SQLLit(row["n1"], 0)
+			if inSub {
+				standalone = "SELECT un1 FROM u1 WHERE un1 " + op + " " + gen.SQLLit(row["n1"], 0)
+			}
+			so := Run(fresh(), standalone)
+			c.Evals(1)
+			if !so.OK() {
+				c.Discard("standalone failed")
+				return
+			}
+			distinct[val.Canon(so.Rows)] = true
+			if inSub {
+				for _, r := range so.Rows {
+					if val.Equal(r.(map[string]any)["un1"], row["n2"]) {
+						wantIDs = append(wantIDs, row["rid"])
+						break
+					}
+				}
+				continue
+			}
+			if i >= len(o.Rows) {
+				c.Violate("row-count", "fewer rows out than in", det)
+				return
+			}
+			got, _ := o.Rows[i].(map[string]any)
+			var ga []any
+			switch x := got["sub"].(type) {
+			case []any:
+				ga = x
+			case nil:
+			default:
+				ga = []any{x}
+			}
+			if !(len(ga) == 0 && len(so.Rows) == 0) && !val.SameSeq(ga, so.Rows) {
+				det["row"] = row
+				det["standalone"] = standalone
+				det["standalone_result"] = val.Show(so.Rows)
+				c.Violate("subquery-differs", fmt.Sprintf("row %d: subquery contributed %s, standalone on that row returns %s", i, short(val.Canon(got["sub"]), 200), short(val.Canon(so.Rows), 200)), det)
+				return
+			}
+		}
+		if inSub && !val.SameSeq(Rids(o.Rows), wantIDs) {
+			det["expected_rids"] = wantIDs
+			c.Violate("in-subquery", fmt.Sprintf("IN (root-sourced, row-correlated subquery) kept rids %v, row-by-row evaluation keeps %v", Rids(o.Rows), wantIDs), det)
+			return
+		}
+		if len(distinct) >= 2 {
 			c.Nontrivial(composed + "|" + val.Canon(doc))
 		}
 
